@@ -187,6 +187,8 @@ def run(tier, seed, replay):
                             "canonical option on a non-async function type, so such a module cannot be componentized by any generator",
                             "clang-14 diagnostics stand in for the wasi-sdk clang crates/test uses",
                             "generator errors/panics are C16's business and counted as inconclusive here"]
+        if replay:
+            compz.replay_floor(rep, FLOORS, tier)
     finally:
         vcommon.rm_scratch(work)
     return rep
